@@ -19,7 +19,7 @@ use std::time::Duration;
 static GLOBAL: alloc::Counting = alloc::Counting;
 
 const WORLD_ID: u64 = 4;
-const VERIF: &str = "/verif";
+fn verif_dir() -> String { std::env::var("MECHSIM_VERIF").unwrap_or_else(|_| "/verif".to_string()) }
 
 // -------------------------------------------------------------------------------------------------
 // the simulated tree
@@ -138,7 +138,9 @@ fn ref_expand(tree: &Tree, canon: &str, active: &mut Vec<String>, st: &mut RefSt
     let t = body.trim();
     if t.len() >= 2 && t.starts_with('{') && t.ends_with('}') {
       let inner = t[1..t.len() - 1].trim();
-      if inner.ends_with(".mec") {
+      // a stand-alone `{path.mec}` line is ONE brace expression: `{1+1} and {b.mec}` is two, with text
+      // between them, and stays literal ("other brace expressions untouched")
+      if inner.ends_with(".mec") && !inner.contains('{') && !inner.contains('}') {
         if inner.contains("..") { st.dotdot_includes += 1; }
         if t.len() != body.len() || inner.len() != t.len() - 2 { st.padded_include_lines += 1; }
         let target = match resolve(tree, &dir, inner, 0) { Some(t) => t, None => { return Err(RefErr::Failed(Some(inner.to_string()))); } };
@@ -184,7 +186,7 @@ fn reachable_errors(tree: &Tree, start: &str) -> (bool, bool) {
       let t = line.trim();
       if t.len() >= 2 && t.starts_with('{') && t.ends_with('}') {
         let inner = t[1..t.len() - 1].trim();
-        if inner.ends_with(".mec") { out.push(resolve(tree, &dir, inner, 0).filter(|t| !tree.dirs.contains(t))); }
+        if inner.ends_with(".mec") && !inner.contains('{') && !inner.contains('}') { out.push(resolve(tree, &dir, inner, 0).filter(|t| !tree.dirs.contains(t))); }
       }
     }
     out
@@ -222,7 +224,7 @@ fn rel(from_dir: &str, to: &str, rng: &mut Rng) -> String {
 }
 
 fn gen_lines(rng: &mut Rng, includes: &[String], filler: bool) -> String {
-  let plain = ["x := 1", "Some prose here.", "y := x + 2", "# heading", "", "a {b.mec} c", "{1+1}", "{foo/bar}", "{x.mech}", "text {inline.mec}", "    {indented-not-code.mec-}", "{ not an include }", "{{double.mec}}", "{a.mec", "b.mec}"];
+  let plain = ["x := 1", "Some prose here.", "y := x + 2", "# heading", "", "a {b.mec} c", "{1+1}", "{foo/bar}", "{x.mech}", "text {inline.mec}", "    {indented-not-code.mec-}", "{ not an include }", "{{double.mec}}", "{a.mec", "b.mec}", "{1+1} and {b.mec}", "{x} {a.mec}", "{a.mec} then {b.mec}", "{a.mec}{b.mec}"];
   let mut lines: Vec<String> = vec![];
   let mut inc: Vec<String> = includes.to_vec();
   let n_extra = if filler { rng.usize(6) } else { 0 };
@@ -260,7 +262,10 @@ fn gen_lines(rng: &mut Rng, includes: &[String], filler: bool) -> String {
     let inner_l = if rng.chance(1, 4) { " " } else { "" };
     let inner_r = if rng.chance(1, 4) { " " } else { "" };
     let line = format!("{}{{{}{}{}}}{}", pad_l, inner_l, t, inner_r, pad_r);
-    let pos = rng.usize(first_fence + 1);
+    // two in three land before the first fence (certainly an include); the others anywhere — after a
+    // closed fence (the closer has to have been recognised), or inside one (must stay literal): the
+    // reference decides from the text which it is
+    let pos = if rng.chance(2, 3) { rng.usize(first_fence + 1) } else { rng.usize(lines.len() + 1) };
     lines.insert(pos, line);
   }
   let mut text = lines.join("\n");
@@ -592,7 +597,7 @@ fn check_cmd(args: &[String]) -> i32 {
   let thorough = tier == "thorough";
   let tier = if thorough { "thorough".to_string() } else { "quick".to_string() };
   let seed: u64 = arg(args, "--seed").and_then(|s| s.parse().ok()).or_else(|| std::env::var("VERIF_SEED").ok().and_then(|s| s.parse().ok())).unwrap_or(1);
-  let base = PathBuf::from(VERIF);
+  let base = PathBuf::from(verif_dir());
   let mut wa: Vec<String> = vec!["worker".into(), "--seed".into(), seed.to_string()];
   if thorough { wa.push("--thorough".into()); }
   let mut spec = CheckSpec {
